@@ -120,7 +120,7 @@ def fill_depressions(
             z1 = elevtn[r, c]
             dz = z0 - z1  # local depression if dz > 0
             if max_depth >= 0:  # if positive max_depth: don't fill when dz > max_depth
-                if dz >= max_depth:
+                if dz >= max_depth and dz > 0:  # too deep depression (dz > 0)
                     heapq.heappush(
                         q, (np.float64(z1), np.uint8(0), np.uint32(r), np.uint32(c))
                     )
